@@ -8,7 +8,7 @@ ROUTER_TB = COMMON_TB + [
 ]
 
 CFG = {
-    "harness": ["router", "router:conflicts", "router:live"],
+    "harness": ["router", "router:conflicts", "router:small", "router:live"],
     "run_module": "Run_Router",
     "coq_header": "From DS Require Import Base Versions Router RouterSpec.\nFrom DSR Require Import Run_Router.",
     "case_type": "rcase",
@@ -23,9 +23,16 @@ CFG = {
             "non-trivial: two endpoints sharing a proper prefix, or a wildcard, or two ranges on one (path, method); "
             "distinct by case content. Judged: every lookup that finds, or by the table should find, an endpoint: "
             "operation id, variable map, content type and body limit against the declarative matcher over the "
-            "declarations the implementation accepted, and against the trie model. A live slice (router:live) serves "
+            "declarations the implementation accepted, and against the trie model. A small-scope stream (router:small) enumerates "
+            "endpoints over templates of depth <= 2 on literals {a,b}, variables {x,y} and the wildcard (wherever it "
+            "stands), methods {GET,PUT}, four range kinds over a 3-chain, with every request path of depth <= 3 over "
+            "{a,b,c} x methods x versions: thorough tier every single endpoint and EVERY ordered pair (both "
+            "registration orders; ~62 000 tables), quick tier a seeded sample of pairs and triples. "
+            "A live slice (router:live) serves "
             "tables with a real HttpServer (unversioned, or ClientSpecifiesVersionInHeader) and reads status, echoed "
             "operation id / variables / content type / body limit and every Allow header line off the wire.",
+    "exhaustive_note": "thorough tier: the small-scope stream enumerates every ordered pair of endpoints of its "
+                       "scope with the complete request grid; everything else is sampled",
     "trusted_base": ROUTER_TB,
     "assumptions": [
         "dropshot inspects versions only through Ord/Eq (chain indices are a faithful abstraction; C05 checks the order itself)",
